@@ -102,32 +102,11 @@ func ruleCheckValue(c *Ctx) {
 		if fn == nil {
 			continue
 		}
-		var csParam ssa.Value
-		for _, p := range fn.Params {
-			if isIntType(p.Type()) {
-				csParam = p
-			}
-		}
-		stored := false
-		eachInstr(fn, func(b *ssa.BasicBlock, ins ssa.Instruction) {
-			if st, ok := ins.(*ssa.Store); ok {
-				if _, f := storeBase(st.Addr); f == "checksum" && st.Val == csParam {
-					stored = true
-				}
-			}
-		})
-		c.Check(R2, name, fn.Pos(), stored, "checksum parameter stored in the checksum field", fmt.Sprint(stored))
-		// the other fields: kind, content, bars
 		n := NewNormer(c.P)
 		n.BindParams(fn, "kind", "content", "bars", "checksum", "color")
-		got := map[string]string{}
-		eachInstr(fn, func(b *ssa.BasicBlock, ins ssa.Instruction) {
-			if st, ok := ins.(*ssa.Store); ok {
-				if _, f := storeBase(st.Addr); f != "" {
-					got[f] = n.Norm(st.Val).String()
-				}
-			}
-		})
+		got := ctorFields(n, fn, 0)
+		c.Check(R2, name, fn.Pos(), got["checksum"] == "checksum", "checksum parameter stored in the checksum field", got["checksum"])
+		// the other fields: kind, content, bars
 		c.Check("K5-CONTENT", name+"/fields", fn.Pos(), got["kind"] == "kind" && got["content"] == "content" && got["BitList"] == "bars", "kind, content and bars stored from the parameters of those names", fmt.Sprint(got))
 	}
 	for _, name := range []string{"utils.New1DCode", "utils.New1DCodeWithColor"} {
@@ -137,14 +116,7 @@ func ruleCheckValue(c *Ctx) {
 		}
 		n := NewNormer(c.P)
 		n.BindParams(fn, "kind", "content", "bars", "color")
-		got := map[string]string{}
-		eachInstr(fn, func(b *ssa.BasicBlock, ins ssa.Instruction) {
-			if st, ok := ins.(*ssa.Store); ok {
-				if _, f := storeBase(st.Addr); f != "" {
-					got[f] = n.Norm(st.Val).String()
-				}
-			}
-		})
+		got := ctorFields(n, fn, 0)
 		c.Check("K5-CONTENT", name+"/fields", fn.Pos(), got["kind"] == "kind" && got["content"] == "content" && got["BitList"] == "bars", "kind, content and bars stored from the parameters of those names", fmt.Sprint(got))
 	}
 	if fn := c.theFunc(R2, "utils.(*base1DCodeIntCS).CheckSum"); fn != nil {
@@ -203,4 +175,50 @@ func ruleRuneKeys(c *Ctx) {
 			c.Check(R, key, lk.Pos(), !(fromByte && wide), "rune keys come from ranging over the string or from []rune", fmt.Sprintf("key is a single byte=%v, table has non-ASCII keys=%v", fromByte, wide))
 		})
 	}
+}
+
+// ctorFields: the values a constructor stores into the fields of the object it builds (field name ->
+// normal form over the constructor's parameters). A constructor that only delegates to a sibling
+// (return otherCtor(args...)) is followed into the sibling in that calling context.
+func ctorFields(n *Normer, fn *ssa.Function, depth int) map[string]string {
+	got := map[string]string{}
+	eachInstr(fn, func(b *ssa.BasicBlock, ins ssa.Instruction) {
+		if st, ok := ins.(*ssa.Store); ok {
+			if _, f := storeBase(st.Addr); f != "" {
+				got[f] = n.Norm(st.Val).String()
+			}
+		}
+	})
+	if len(got) > 0 || depth >= 2 {
+		return got
+	}
+	rets := returnsOf(fn)
+	if len(rets) != 1 || len(rets[0].Results) != 1 {
+		return got
+	}
+	v := rets[0].Results[0]
+	for {
+		switch x := v.(type) {
+		case *ssa.MakeInterface:
+			v = x.X
+			continue
+		case *ssa.ChangeInterface:
+			v = x.X
+			continue
+		}
+		break
+	}
+	call, ok := v.(*ssa.Call)
+	if !ok {
+		return got
+	}
+	cal := call.Common().StaticCallee()
+	if cal == nil || !isRepoFunc(cal) || cal.Blocks == nil || cal == fn {
+		return got
+	}
+	saved := n.Ctx
+	n.Ctx = append(append([]ssa.CallInstruction{}, saved...), call)
+	got = ctorFields(n, cal, depth+1)
+	n.Ctx = saved
+	return got
 }
